@@ -222,6 +222,19 @@ Theorem standard_templates :
    Some [inl 0; inr s_data]; Some [inl 0; inr s_data]; Some [inr s_op_n; inr s_data]].
 Proof. exact templates_are. Qed.
 
+
+(* ---------- histories on one key object: whatever was looked at before on the SAME HDKey object (its address in another
+              script type / encoding, its address object, a public copy, WIFs, hashes ...: any list of looks [ls]), the
+              output built from the object is the output built from the fresh key — it is a function of the key's network,
+              witness type, multisig flag and public key, and lib_lock_is_spec_hdkey says which one.  The harness replays
+              such histories on the real object (hd requests with a history token) and asks the model without it.
+              Guard [look_keeps_key]: no look is address_uncompressed() / address(compressed=False), which rewrites what the
+              object hashes (known class hd_key_left_uncompressed, refuted below without the guard). ---------- *)
+Theorem output_of_hd_key_history_free : forall H160 fx net k ls,
+  Forall look_keeps_key ls ->
+  hd_out H160 fx net (fold_left (hd_look H160 fx) ls k) = hd_out H160 fx net k.
+Proof. exact hd_out_history_free. Qed.
+
 (* ---------- non-vacuity ---------- *)
 Example standard_inhabited :
   standard (mkdest P2pkh 0 ex20) = true /\ standard (mkdest P2wsh 0 ex32) = true /\
@@ -334,6 +347,38 @@ Example hdkey_multisig_destinations :
    | None => None end) = Some (x00 :: x20 :: ex32, s_p2wsh, OaIs (DBech [x62; x63] 0 ex32)).
 Proof. vm_compute. split; reflexivity. Qed.
 
+
+(* histories: the reading of Output that trusts the key's cached address object agrees with the real one on a fresh key and
+   is refuted after one look at the segwit key's P2SH-embedded address (lock a914<hash160(0014<h>)>87 instead of 0014<h>):
+   the statement of output_of_hd_key_history_free is about something that can fail *)
+Example hd_cached_reading_refuted :
+  let k := {| ks_net := nw_bitcoin; ks_w := WSegwit; ks_ms := false; ks_h160 := ex20; ks_s256 := ex32;
+              ks_pub := x02 :: ex32; ks_cache := None |} in
+  let k' := hd_look no_hash fx_now k (LAddress (Some s_p2sh_p2wpkh) (Some EB58)) in
+  hd_out_cached no_hash fx_now nw_bitcoin k = hd_out no_hash fx_now nw_bitcoin k /\
+  hd_out no_hash fx_now nw_bitcoin k' = hd_out no_hash fx_now nw_bitcoin k /\
+  hd_out no_hash fx_now nw_bitcoin k <> None /\
+  hd_out_cached no_hash fx_now nw_bitcoin k' <> hd_out no_hash fx_now nw_bitcoin k'.
+Proof. vm_compute. repeat split; try reflexivity; intros H; discriminate H. Qed.
+
+(* known class hd_key_left_uncompressed: one look at the uncompressed address, and the output built from the same object is
+   locked to the hash of the 65-byte encoding (here repeat 08 20) instead of the key's own hash (ex20) *)
+Example hd_key_left_uncompressed_refuted :
+  let k := {| ks_net := nw_bitcoin; ks_w := WLegacy; ks_ms := false; ks_h160 := ex20; ks_s256 := ex32;
+              ks_pub := x02 :: ex32; ks_cache := None |} in
+  let ls := [LAddress None None; LUncompressed (repeat x08 20) (repeat x08 32)] in
+  ~ Forall look_keeps_key ls /\
+  Forall look_keeps_key [LAddress None None; LAddrObj; LPublic; LQuiet] /\
+  (match hd_out no_hash fx_now nw_bitcoin (fold_left (hd_look no_hash fx_now) ls k) with
+   | Some (ROk o) => Some (o_lock o) | _ => None end) = Some (x76 :: xa9 :: x14 :: repeat x08 20 ++ [x88; xac]) /\
+  (match hd_out no_hash fx_now nw_bitcoin k with
+   | Some (ROk o) => Some (o_lock o) | _ => None end) = Some (x76 :: xa9 :: x14 :: ex20 ++ [x88; xac]).
+Proof.
+  split; [intros H; inversion H as [|? ? _ H2]; inversion H2 as [|? ? H3 _]; exact H3|].
+  split; [repeat constructor|].
+  vm_compute. split; reflexivity.
+Qed.
+
 (* --- tie of the address prefix tables: every row of networks.json as regenerated on this run, projected to the fields
        the properties depend on, equals the frozen specification table (reference-client chain parameters with the
        library's documented deviations); an edited, added, removed or reordered row breaks this --- *)
@@ -359,6 +404,7 @@ Print Assumptions lib_inverse_tx.
 Print Assumptions lib_reparse_is_destination.
 Print Assumptions lib_address_tx_roundtrip.
 Print Assumptions lib_lock_is_spec_hdkey.
+Print Assumptions output_of_hd_key_history_free.
 Print Assumptions address_decides_next_to_public_key.
 Print Assumptions foreign_network_refused_next_to_public_key.
 Print Assumptions push_classifier_is_modelled.
